@@ -121,7 +121,7 @@ func identShapes(t reflect.Type) []string {
 		// after '|': the copy keeps everything (the id too) and differs in that one detail of the link
 		return []string{"iri", "obj:Object", "obj:Actor", "link-full", "link-full|href", "link-full|name", "link-href", "list2", "iris2"}
 	case t == vmodel.IcT:
-		return []string{"l:iri", "l:obj:Object", "l2", "l:link-full|href", "l:link-full|name", "l3|+member", "l3|-member"}
+		return []string{"l:iri", "l:obj:Object", "l2", "l:link-full|href", "l:link-full|name", "l3|+member", "l3|-member", "l2|emptied"}
 	case t == vmodel.NlvT:
 		// "|tag": the same text under another language tag
 		return []string{"nlv1u", "nlv1t", "nlv2|tag", "nlv1t|tag", "nlv2|+entry"}
@@ -216,6 +216,10 @@ func setDifferent(g *vmodel.Gen, fv reflect.Value, t reflect.Type, shape string)
 	case t == vmodel.IcT && how == "+member":
 		old := fv.Interface().(vocab.ItemCollection)
 		fv.Set(reflect.ValueOf(append(append(vocab.ItemCollection{}, old...), vocab.IRI("https://other.example/one-more"))))
+	case t == vmodel.IcT && how == "emptied":
+		// what Clean(), Remove of the last member or a de-duplication leave behind: the list is still there, with nobody in it
+		old := fv.Interface().(vocab.ItemCollection)
+		fv.Set(reflect.ValueOf(append(vocab.ItemCollection{}, old...)[:0]))
 	case t == vmodel.IcT && how == "-member":
 		old := fv.Interface().(vocab.ItemCollection)
 		fv.Set(reflect.ValueOf(append(vocab.ItemCollection{}, old[:len(old)-1]...)))
